@@ -116,7 +116,7 @@ def check(ctx, R, funcs, what="blocks tile the whole array"):
                         break
                 if bad is not None:
                     ctx.bad(R, f, lp, "the loop `for %s in %s` handles the array in blocks of %d, but for a length of %d it runs %d time(s) and covers only the "
-                            "first %d element(s): the remaining %d are silently left out" % (v, astq.text(lp.iter), B, bad[0], bad[1], bad[2], bad[0] - bad[2]), what)
+                            "first %d element(s): the remaining %d are silently left out" % (v, astq.text(lp.iter), B, bad[0], bad[1], bad[2], bad[0] - bad[2]), what, robust=True)
                 else:
                     ctx.ok(R, f.loc(lp), what, "block size %d, lengths %s" % (B, lens))
                 break
